@@ -23,6 +23,9 @@ def neq {α} [BEq α] (a b : α) : Bool := a != b
 def Wellformed (sp : List Nat) (n : Nat) : Prop :=
   sp.Pairwise (· < ·) ∧ sp.head? = some 0 ∧ sp.getLast? = some n
 
+/-- rows `i` and `j` lie in the same span of `sp`: no span start separates them -/
+def SameSpan (sp : List Nat) (i j : Nat) : Prop := ∀ b ∈ sp, b ≤ i ↔ b ≤ j
+
 /-- the spans as (start, end) pairs -/
 def pairs (sp : List Nat) : List (Nat × Nat) := sp.zip sp.tail
 
